@@ -645,6 +645,7 @@ def check(run: Run) -> None:
         "by a mutator and another query; distinct by content"
     )
     run.check_proofs(AREA, PROPS)
+    run.check_proofs("editproofs", "PropsC03b.v")  # registry / rejected-edit / name-reuse theorems
     run.assumptions += [
         "Coq 8.16.1 kernel + vm_compute; theorems closed under the global context (see trusted_base)",
         "modelled: containers as ordered association lists, surrogates as MockSurrogate records, data sets as scalars, "
